@@ -408,6 +408,9 @@ def run_hyp(desc):
     @util.hyp_settings(desc['n'], shrink=False)
     @given(pat, flagset, wmflags, st.booleans(), st.one_of(st.none(), soup), st.one_of(st.none(), mutated()))
     def test(p, gl_names, wm_names, as_bytes, exclude, second):
+        if any(v is not None and '\x00' in v for v in (p, exclude, second)):
+            # GLOBTILDE consults the account database / file system, where NUL is an OS-level ValueError
+            gl_names = [n for n in gl_names if n != 'GLOBTILDE']
         fn_names = [n for n in gl_names if n in util.FN_FLAGS]
         gl_names = [n for n in gl_names if n not in FS_UNSAFE]
         if as_bytes:
